@@ -7,7 +7,10 @@ import os
 from common import *
 
 IMPORTS = "Spawn.Model"
-KINDS = {0: "spawn", 1: "spawn_linked", 2: "spawn_instant", 3: "spawn_linked_instant"}
+KINDS = {0: "spawn", 1: "spawn_linked", 2: "spawn_instant", 3: "spawn_linked_instant",
+         4: "tl_spawn", 5: "tl_spawn_linked", 6: "tl_spawn_instant", 7: "tl_spawn_linked_instant"}
+LINKED = (1, 3, 5, 7)
+INSTANT = (2, 3, 6, 7)
 SUP_INIT = {"none": ("None", 2, False), "run": ("(Some 4)", 2, False), "draining": ("(Some 4)", 4, False),
             "stopping": ("(Some 4)", 5, False), "dead": ("(Some 4)", 6, True)}
 EFF = {"g": "EGate", "j1": "EJoin 1", "j2": "EJoin 2", "m1": "EMon 1", "m2": "EMon 2", "l": "ELinkTo 8",
@@ -22,10 +25,10 @@ def scn_line(s, idx):
 
 def init_term(s):
     sp, sst, scl = SUP_INIT[s["sup"]]
-    if s["kind"] in (0, 2):
+    if s["kind"] not in LINKED:
         sp = "None"
     scr = "[" + "; ".join(EFF[t] for t in s["script"]) + "]"
-    return (f"init {b(s['named'])} {sp} false {scr} {FIN[s['fin']]} "
+    return (f"init {b(s['named'])} {sp} {b(s['kind'] >= 4)} {scr} {FIN[s['fin']]} "
             f"{'(Some 9)' if s['holder'] else 'None'} {sst} {b(scl)}")
 
 
@@ -35,18 +38,27 @@ def b(x):
 
 def chunks_for(s):
     """harness operations -> label chunks (one chunk per settle). Labels that are not enabled are
-    no-ops of the model, so the pipeline labels are offered at every settle."""
+    no-ops of the model, so the pipeline labels are offered at every settle.
+    Thread-local kinds: while the spawner thread is blocked the start-up task cannot run, so neither
+    pre_start progress nor the Kill is offered; dropping the spawn future while the request is queued
+    takes effect (abort of the start-up task, guard cleanup) when the spawner gets to the request."""
     script = s["script"]
     pos, opened, returned, spawned, created = 0, 0, False, False, False
+    blocked, abort_pending, begun = False, False, False
     ncall, nwait = 0, 0
     chunks, cur = [], []
-    instant = s["kind"] in (2, 3)
+    instant = s["kind"] in INSTANT
+    tl = s["kind"] >= 4
     for op in s["ops"]:
         if op == "spawn":
             spawned = True
             if instant:
                 cur.append("LNew")
                 created = True
+        elif op == "block":
+            blocked = True
+        elif op == "release":
+            blocked = False
         elif op == "open":
             opened += 1
         elif op == "kill":
@@ -54,7 +66,10 @@ def chunks_for(s):
         elif op == "drain":
             cur.append("LDrain")
         elif op == "abort":
-            cur.append("LAbort")
+            if tl and begun and blocked:
+                abort_pending = True
+            else:
+                cur.append("LAbort")
         elif op == "cast":
             cur.append("LSend None")
         elif op == "call":
@@ -64,7 +79,7 @@ def chunks_for(s):
             nwait += 1
             cur.append(f"LWait {nwait}")
         elif op == "supkill":
-            cur += ["LSupStatus 6", "LSupClose"]
+            cur += ["LSupTake", "LSupStatus 6", "LSupClose"]
         elif op == "supstop":
             cur.append("LSupStatus 5")
         elif op.startswith("extjoin"):
@@ -80,21 +95,28 @@ def chunks_for(s):
                 if not created:
                     cur.append("LNew")
                     created = True
-                cur += ["LBegin", "LSeeKill"]
-                while pos < len(script):
-                    if script[pos] == "g":
-                        if script[:pos].count("g") < opened:
+                cur.append("LBegin")
+                begun = True
+                if abort_pending and not blocked:
+                    cur.append("LAbort")
+                    abort_pending = False
+                if not blocked:
+                    cur.append("LSeeKill")
+                    while pos < len(script):
+                        if script[pos] == "g":
+                            if script[:pos].count("g") < opened:
+                                cur.append("LEff")
+                                pos += 1
+                            else:
+                                break
+                        else:
                             cur.append("LEff")
                             pos += 1
-                        else:
-                            break
-                    else:
+                    if pos == len(script) and not returned:
                         cur.append("LEff")
-                        pos += 1
-                if pos == len(script) and not returned:
-                    cur.append("LEff")
-                    returned = True
-                cur += ["LLinkSup"] + ["LClean"] * 6
+                        returned = True
+                    cur.append("LLinkSup")
+                cur += ["LClean"] * 6
             chunks.append(cur)
             cur = []
         else:
@@ -128,12 +150,24 @@ def rand_script(rng, ngates):
 ENV_OPS = ["cast", "call", "wait", "extjoin3", "extlink", "call", "wait"]
 
 
-def build(rng, kind, named, holder, sup, script, fin, cause, cut, early=None, env=0, post=True):
-    """cause in none|kill|abort|drain|supkill|supstop, applied while parked at gate #cut"""
-    ops = ["spawn"]
+def build(rng, kind, named, holder, sup, script, fin, cause, cut, early=None, env=0, post=True, queued=None):
+    """cause in none|kill|abort|drain|supkill|supstop, applied while parked at gate #cut.
+    queued (thread-local kinds only): None, or the operation issued while the start request is still
+    queued behind a busy spawner thread ('none' = just queued for a while)"""
+    ops = []
+    if queued is not None:
+        ops.append("block")
+    ops.append("spawn")
     if early:
         ops.append(early)
     ops.append("settle")
+    if queued is not None:
+        for _ in range(env):
+            if rng.random() < 0.5:
+                ops += [rng.choice(ENV_OPS), "settle"]
+        if queued != "none":
+            ops += [queued, "settle"]
+        ops += ["release", "settle"]
     ngates = script.count("g")
     for g in range(ngates):
         # parked at gate g
@@ -148,44 +182,62 @@ def build(rng, kind, named, holder, sup, script, fin, cause, cut, early=None, en
             if o == "reuse" and not named:
                 continue
             ops += [o, "settle"]
+    tag = cause if cause != "none" else fin
+    if queued not in (None, "none"):
+        tag = "queued-" + queued
     return {"kind": kind, "named": named, "holder": holder, "sup": sup, "script": script, "fin": fin,
-            "ops": ops, "tag": f"{KINDS[kind]}:{cause if cause != 'none' else fin}"}
+            "ops": ops, "tag": f"{KINDS[kind]}:{tag}"}
 
 
 def gen_systematic(rng):
     out = []
     script = ["j1", "m2", "a", "g", "l", "g"]
-    for kind in (0, 1, 2, 3):
-        sups = ["run", "draining", "stopping", "dead"] if kind in (1, 3) else ["none"]
+    for kind in range(8):
+        linked = kind in LINKED
+        sups = ["run", "draining", "stopping", "dead"] if linked else ["none"]
         for sup in sups:
             for fin in ("ok", "err", "panic"):
                 out.append(build(rng, kind, True, False, sup, script, fin, "none", 0, env=1))
-            for cause in ("kill", "abort", "drain") + (("supkill", "supstop") if kind in (1, 3) and sup == "run" else ()):
+            for cause in ("kill", "abort", "drain") + (("supkill", "supstop") if linked and sup == "run" else ()):
                 for cut in (0, 1):
                     out.append(build(rng, kind, False, False, sup, script, "ok", cause, cut, env=1))
-        for early in ("kill", "abort", "drain", "cast", "call", "wait") if kind in (2, 3) else ():
+        for early in ("kill", "abort", "drain", "cast", "call", "wait") if kind in INSTANT else ():
             out.append(build(rng, kind, True, False, sups[0], script, "ok", "none", 0, early=early))
         # name taken
         out.append(build(rng, kind, True, True, sups[0], script, "ok", "none", 0, env=1))
+        # thread-local: the spawn future dropped / the actor killed / drained / the supervisor killed while
+        # the start request is still queued at a busy spawner
+        if kind >= 4:
+            for q in ("abort", "kill", "drain", "none") + (("supkill",) if linked else ()):
+                for fin in ("ok", "err"):
+                    for scr in (script, ["j1"], []):
+                        out.append(build(rng, kind, True, False, sups[0], scr, fin, "none", 0, env=1, queued=q))
     return out
 
 
 def gen_random(rng, count):
     out = []
     for _ in range(count):
-        kind = rng.choice([0, 1, 2, 3])
-        named = rng.random() < 0.6
-        holder = named and rng.random() < 0.15
-        sup = rng.choice(["run", "run", "draining", "stopping", "dead"]) if kind in (1, 3) else "none"
+        kind = rng.choice([0, 1, 2, 3, 4, 5, 6, 7])
+        linked = kind in LINKED
+        queued = None
+        if kind >= 4 and rng.random() < 0.45:
+            queued = rng.choice(["abort", "abort", "kill", "drain", "none"] + (["supkill"] if linked else []))
+        # a queued non-instant thread-local spawn can only be reached through the registry
+        named = True if (queued is not None and kind in (4, 5)) else rng.random() < 0.6
+        holder = named and queued is None and rng.random() < 0.15
+        sup = rng.choice(["run", "run", "draining", "stopping", "dead"]) if linked else "none"
+        if queued == "supkill":
+            sup = "run"
         ngates = rng.randint(0, 3)
         script = rand_script(rng, ngates)
         fin = rng.choice(["ok", "ok", "err", "panic"])
-        causes = ["none", "kill", "abort", "drain"] + (["supkill", "supstop"] if kind in (1, 3) and sup == "run" else [])
+        causes = ["none", "kill", "abort", "drain"] + (["supkill", "supstop"] if linked and sup == "run" and queued != "supkill" else [])
         cause = rng.choice(causes) if ngates else "none"
         cut = rng.randrange(ngates) if ngates else 0
-        early = rng.choice([None, None, "kill", "abort", "drain", "cast", "call", "wait"]) if kind in (2, 3) else None
+        early = rng.choice([None, None, "kill", "abort", "drain", "cast", "call", "wait"]) if kind in INSTANT else None
         out.append(build(rng, kind, named, holder, sup, script, fin, cause, cut, early=early,
-                         env=rng.choice([0, 1, 2])))
+                         env=rng.choice([0, 1, 2]), queued=queued))
     return out
 
 
@@ -267,7 +319,7 @@ def run(chk):
         if bad:
             chk.violation(bad, "C08 oracle rejects the implementation's observation after a failed spawn\n" + bad + "\n" + desc
                           + "replay: python3 bin/check.py C08 --replay <this file>\n")
-        elif mt != iv:
+        elif mask_unseen(s, mt, iv) != mask_unseen(s, iv, iv):
             chk.coverage["disagreements_checked"] += 1
             first = next((j for j, (x, y) in enumerate(zip(mt, iv)) if x != y), None)
             chk.violation("model/implementation observations differ",
@@ -277,11 +329,25 @@ def run(chk):
             chk.coverage["samples"].append({"scenario": scn_line(s, "r0"), "impl": show_term(iv), "model": vals[i]})
     chk.coverage["traces_validated_against_impl"] = N
     chk.coverage["distinct_nontrivial"] = len(distinct)
-    chk.coverage["rule"] = ("corpus + systematic (4 spawn APIs x supervisor state x {Err, panic, kill, abort, drain, supervisor "
+    chk.coverage["rule"] = ("corpus + systematic (8 spawn APIs incl. thread-local, cancellation while queued at a busy spawner; 4 spawn APIs x supervisor state x {Err, panic, kill, abort, drain, supervisor "
                             "killed/stopping} x cut at each gate, early operations on instant spawns, taken name) + seeded random "
                             "scenarios; non-trivial = the spawn did not produce a running actor; distinct = distinct scenario texts")
     chk.coverage["exhaustive_part"] = "systematic list over APIs x causes x cut points for a script with 2 await points"
     return chk.finish(trusted_base=TRUSTED)
+
+
+def mask_unseen(s, obs_list, impl_list):
+    """A non-instant thread-local spawn that fails before pre_start runs (supervisor link refused at the
+    very beginning) never hands its cell to anybody: its status cannot be read through any public API.
+    Where the implementation's observation has no cell (status 0) the status field is not compared."""
+    if s["kind"] not in (4, 5):
+        return obs_list
+    out = []
+    for o, i in zip(obs_list, impl_list):
+        if i[1] == 0:
+            o = (o[0], 0) + tuple(o[2:])
+        out.append(o)
+    return out
 
 
 OBS_FIELDS = ["status", "waiters_released", "name_mine", "pid_mine", "groups", "mons", "in_sup_children", "has_sup",
@@ -306,6 +372,7 @@ TRUSTED = [
     "atomic step (their internal thread-level interleavings are the subject of C10/C11)",
     "tokio current_thread + paused clock: sleep(1ns) as quiescence barrier; JoinHandle::abort / dropping the future cuts at an await point",
     "pg::verif::snapshot (cfg slawlor_ractor_verif) is used to read the group listener lists",
-    "thread-local spawn order (link before pre_start) is covered by the theorems (flag local_) but not exercised by the harness",
+    "thread-local spawns run on a real spawner thread: quiescence there is reached by FIFO fences through the spawner's "
+    "request queue and local task queue (no wall-clock decisions; a watchdog turns a hang into exit code 2)",
     "Rust harness eng_spawn, lib/common.py term parser and comparison",
 ]
